@@ -23,10 +23,14 @@ def main():
     results = []
     for m in todo:
         try:
+            stale = [ed for ed in m["edits"] if open(os.path.join(REPO, ed["file"])).read().count(ed["old"]) != 1]
+            if stale:
+                print(m["id"], "STALE: pattern not found exactly once in", stale[0]["file"], flush=True)
+                results.append((m["id"], "-", 99))
+                continue
             for ed in m["edits"]:
                 p = os.path.join(REPO, ed["file"])
                 s = open(p).read()
-                assert s.count(ed["old"]) == 1, "pattern not unique in %s: %r (%d)" % (ed["file"], ed["old"], s.count(ed["old"]))
                 open(p, "w").write(s.replace(ed["old"], ed["new"]))
             b = sh("cd %s && go build ./... 2>&1" % REPO)
             if b.returncode != 0:
